@@ -250,3 +250,121 @@ func TestVerif_C15_SeqPriority(t *testing.T) {
 			"seq-priority", lbl(ties, "seq-priority/ties"), lbl(nextAllUsed, "seq-priority/nextall"), lbl(nextAllErr, "seq-priority/nextall-callback-error"))
 	})
 }
+
+// bounded-exhaustive tier for the priority queue: every order of adding n distinct counters, every split "add the
+// first k, take j, add the rest", drained with Next or NextAll; each item handed out must be the smallest pending one.
+func TestVerif_C15_PriorityPermutations(t *testing.T) {
+	acct := vacct.Get("C15")
+	maxN := 6
+	if vacct.Thorough() {
+		maxN = 8
+	}
+	shard, nshards := vacct.Shard()
+	cases := 0
+	var perm func(a []int, k int, f func([]int) bool) bool
+	perm = func(a []int, k int, f func([]int) bool) bool {
+		if k == len(a) {
+			return f(a)
+		}
+		for i := k; i < len(a); i++ {
+			a[k], a[i] = a[i], a[k]
+			ok := perm(a, k+1, f)
+			a[k], a[i] = a[i], a[k]
+			if !ok {
+				return false
+			}
+		}
+		return true
+	}
+	for n := 1; n <= maxN; n++ {
+		base := make([]int, n)
+		for i := range base {
+			base[i] = i + 1
+		}
+		pi := 0
+		ok := perm(base, 0, func(order []int) bool {
+			pi++
+			if pi%nshards != shard {
+				return true
+			}
+			for k := 1; k <= n; k++ {
+				for j := 0; j <= k; j++ {
+					if k == n && j > 0 {
+						continue // same as draining
+					}
+					for _, useAll := range []bool{false, true} {
+						pq := NewPriorityQueue[*c15Item]("v", &noopTracer[*c15Item]{})
+						pending := map[int]bool{}
+						var got []int
+						min := func() int {
+							m := 1 << 30
+							for c := range pending {
+								if c < m {
+									m = c
+								}
+							}
+							return m
+						}
+						bad := ""
+						take := func(it *c15Item) {
+							if it == nil {
+								bad = fmt.Sprintf("nothing handed out with %d pending", len(pending))
+								return
+							}
+							got = append(got, int(it.c))
+							if !pending[int(it.c)] {
+								bad = fmt.Sprintf("counter %d handed out but not pending", it.c)
+							} else if int(it.c) != min() {
+								bad = fmt.Sprintf("counter %d handed out while %d is pending", it.c, min())
+							}
+							delete(pending, int(it.c))
+						}
+						for i := 0; i < k; i++ {
+							pq.Add(&c15Item{id: order[i], c: uint64(order[i])})
+							pending[order[i]] = true
+						}
+						for i := 0; i < j && bad == ""; i++ {
+							take(pq.Next())
+						}
+						for i := k; i < n; i++ {
+							pq.Add(&c15Item{id: order[i], c: uint64(order[i])})
+							pending[order[i]] = true
+						}
+						if useAll {
+							_ = pq.NextAll(func(it *c15Item) error {
+								if bad == "" {
+									take(it)
+								}
+								return nil
+							})
+						} else {
+							for len(pending) > 0 && bad == "" {
+								take(pq.Next())
+							}
+						}
+						if bad == "" && (len(pending) != 0 || pq.Size() != 0) {
+							bad = fmt.Sprintf("%d items never handed out (Size %d)", len(pending), pq.Size())
+						}
+						cases++
+						if bad != "" {
+							detail := map[string]any{"add_order": append([]int(nil), order...), "added_before_taking": k, "taken_in_between": j, "drained_with_NextAll": useAll, "handed_out": got, "msg": bad}
+							acct.Violation("perm-priority/not-min", "TestVerif_C15_PriorityPermutations", detail)
+							t.Errorf("C15 priority queue: add order %v (first %d, then %d Next, then the rest; NextAll=%v) handed out %v: %s", order, k, j, useAll, got, bad)
+							return false
+						}
+					}
+				}
+			}
+			if pi%97 == 0 || n <= 3 {
+				o := append([]int(nil), order...)
+				acct.Case(n >= 4, fmt.Sprintf("perm|%v", o), func() any { return map[string]any{"kind": "perm-priority", "add_order": o} }, "perm-priority")
+			}
+			return true
+		})
+		if !ok {
+			return
+		}
+	}
+	acct.LabelN("perm-priority/sequences", int64(cases))
+	acct.Note("perm-priority", map[string]any{"max_n": maxN, "sequences_in_this_shard": cases, "exhaustive_for": "all add orders of n distinct counters, n<=max_n, all (k,j) splits, Next and NextAll drains"})
+}
